@@ -4,6 +4,7 @@ import LassoModel.Serde
 import LassoModel.Wrap
 import LassoModel.Markers
 import LassoModel.Borrow
+import LassoModel.Conc
 import LassoModel.Extracted
 /-
   Line-protocol driver: one operation per input line, one answer per output line.
@@ -20,10 +21,20 @@ inductive Obj where
   | gone
   deriving Inhabited
 
+/-- Scenario of the concurrent correspondence runs. -/
+structure CScenario where
+  N : Nat := 255
+  cap : Nat := 8
+  max : Nat := 18446744073709551615
+  programs : List (List Conc.Call) := []
+  shards : List (Bytes × Nat) := []
+  prefill : List Bytes := []
+
 structure DState where
   env : Env := { hash := fnv1a, pool := [] }
   N : Nat := 4294967295
   slots : List Obj := []
+  conc : CScenario := {}
 
 /-! ### parsing / printing -/
 
@@ -601,10 +612,147 @@ def stepOpG (st : DState) (toks : List String) : DState × String :=
       | _ => (st', out)
     else (st', out)
 
+/-! ### concurrent scenarios (C03) -/
+
+def parseCall (s : String) : Option Conc.Call :=
+  match s.splitOn ":" with
+  | ["i", h] => (unhex h).map .intern
+  | ["s", h] => (unhex h).map .internStatic
+  | ["g", h] => (unhex h).map .get
+  | ["r", k] => k.toNat?.map .tryResolve
+  | ["c", k] => k.toNat?.map .containsKey
+  | ["l"] => some .len
+  | _ => none
+
+def shardFn (sc : CScenario) (x : Bytes) : Nat :=
+  match sc.shards.find? (fun e => e.1 == x) with
+  | some e => e.2
+  | none => 0
+
+def showRes : Conc.Res → String
+  | .key k => s!"ok{k}"
+  | .err e => match e with
+    | .memoryLimit => "errmem"
+    | .keySpace => "errkeys"
+    | _ => "err"
+  | .optKey (some k) => s!"some{k}"
+  | .optKey none => "none"
+  | .optStr (some b) => s!"str{hex b}"
+  | .optStr none => "nostr"
+  | .bool b => toString b
+  | .num n => toString n
+
+/-- Initial state: the pre-fill strings are interned sequentially by a thread that then disappears. -/
+def concInit (sc : CScenario) : Conc.CS :=
+  let s0 := Conc.init sc.cap sc.max ([sc.prefill.map Conc.Call.intern] ++ sc.programs)
+  -- run thread 0 (the pre-fill) to completion
+  let rec go (fuel : Nat) (s : Conc.CS) : Conc.CS :=
+    match fuel with
+    | 0 => s
+    | f + 1 => match Conc.step (shardFn sc) sc.N s 0 with
+      | some s' => go f s'
+      | none => s
+  go (sc.prefill.length * 8 + 1) s0
+
+def insertSortedStr (e : String) : List String → List String
+  | [] => [e]
+  | x :: r => if e ≤ x then e :: x :: r else x :: insertSortedStr e r
+
+def sortStrs (l : List String) : List String := l.foldr insertSortedStr []
+
+/-- Canonical rendering of a finished run: per-thread results in call order (thread 0 is the
+pre-fill and is not shown), the two maps sorted, the counter and the memory usage. -/
+def showConc (sc : CScenario) (s : Conc.CS) : String :=
+  let n := sc.programs.length
+  let perThread := (List.range n).map fun i =>
+    let t := i + 1
+    let rs := (s.log.reverse.filter (fun e => e.1 == t)).map (fun e => showRes e.2.2)
+    s!"T{i}:" ++ joinWith "," rs
+  let mp := sortStrs (s.map.map fun e => s!"{hex e.1}={e.2}")
+  let st := sortStrs (s.strs.map fun e => s!"{e.1}={hex e.2}")
+  joinWith ";" perThread ++ s!"|map:{joinWith "," mp}|strs:{joinWith "," st}|ctr={s.ctr}|mem={s.arena.usage}|done={Conc.quiescent s}"
+
+def splitmix (z : UInt64) : UInt64 × UInt64 :=
+  let z := z + 0x9E3779B97F4A7C15
+  let a := (z ^^^ (z >>> 30)) * 0xBF58476D1CE4E5B9
+  let b := (a ^^^ (a >>> 27)) * 0x94D049BB133111EB
+  (z, b ^^^ (b >>> 31))
+
+/-- A random complete schedule: only enabled threads (never the pre-fill thread) are picked. -/
+def genSchedule (sc : CScenario) (seed : UInt64) : List Nat :=
+  let rec go (fuel : Nat) (s : Conc.CS) (z : UInt64) (acc : List Nat) : List Nat :=
+    match fuel with
+    | 0 => acc.reverse
+    | f + 1 =>
+      let en := (Conc.enabled (shardFn sc) sc.N s).filter (· != 0)
+      if en.isEmpty then acc.reverse else
+      let (z', r) := splitmix z
+      let t := en.getD (r.toNat % en.length) 0
+      match Conc.step (shardFn sc) sc.N s t with
+      | some s' => go f s' z' (t :: acc)
+      | none => acc.reverse
+  go 4000 (concInit sc) seed []
+
+/-- All complete schedules, depth first, at most `limit`. -/
+def allSchedules (sc : CScenario) (limit : Nat) : List (List Nat) :=
+  let rec go (fuel : Nat) (s : Conc.CS) (pre : List Nat) (acc : List (List Nat)) : List (List Nat) :=
+    match fuel with
+    | 0 => acc
+    | f + 1 =>
+      if acc.length ≥ limit then acc else
+      let en := (Conc.enabled (shardFn sc) sc.N s).filter (· != 0)
+      if en.isEmpty then pre.reverse :: acc else
+      en.foldl (fun acc t =>
+        match Conc.step (shardFn sc) sc.N s t with
+        | some s' => go f s' (t :: pre) acc
+        | none => acc) acc
+  (go 64 (concInit sc) [] []).reverse
+
+def showSched (l : List Nat) : String := joinWith "," (l.map fun t => toString (t - 1))
+
+def concStep (st : DState) (toks : List String) : Option (DState × String) :=
+  match toks with
+  | ["conc", n, cap, mx] =>
+    match n.toNat?, cap.toNat?, parseLimit mx with
+    | some n, some c, some m => some ({ st with conc := { N := n, cap := c, max := m } }, "ok")
+    | _, _, _ => none
+  | "cthread" :: calls =>
+    match calls.mapM parseCall with
+    | some cs => some ({ st with conc := { st.conc with programs := st.conc.programs ++ [cs] } }, "ok")
+    | none => none
+  | ["cshard", h, sh] =>
+    match unhex h, sh.toNat? with
+    | some b, some n => some ({ st with conc := { st.conc with shards := (b, n) :: st.conc.shards } }, "ok")
+    | _, _ => none
+  | "cprefill" :: hs =>
+    match hs.mapM unhex with
+    | some bs => some ({ st with conc := { st.conc with prefill := bs } }, "ok")
+    | none => none
+  | ["cgen", seed, count] =>
+    match seed.toNat?, count.toNat? with
+    | some sd, some c =>
+      let lines := (List.range c).map fun i => "crun " ++ showSched (genSchedule st.conc (UInt64.ofNat (sd * 1000003 + i)))
+      some (st, joinWith "\n" lines)
+    | _, _ => none
+  | ["cexhaust", limit] =>
+    match limit.toNat? with
+    | some l => some (st, joinWith "\n" ((allSchedules st.conc l).map fun s => "crun " ++ showSched s))
+    | none => none
+  | ["crun", sched] =>
+    let ts := if sched == "_" then [] else (sched.splitOn ",").filterMap (fun x => x.toNat?.map (· + 1))
+    let s := Conc.run (shardFn st.conc) st.conc.N (concInit st.conc) ts
+    some (st, showConc st.conc s)
+  | ["crun"] => some (st, showConc st.conc (concInit st.conc))
+  | ["cfree", _] => some (st, "free")   -- schedules not generated by the model: oracle-only on the implementation
+  | _ => none
+
 def findSpec (name : String) : Option KeySpec :=
   Extracted.keySpecs.find? (fun s => s.name == name)
 
 def step (st : DState) (line : String) : DState × String :=
+  match concStep st (line.trimAscii.toString.splitOn " ") with
+  | some r => r
+  | none =>
   match line.trimAscii.toString.splitOn " " with
   | ["keyFrom", name, i] =>
     match findSpec name, i.toNat? with
